@@ -364,3 +364,53 @@ let rec nvalue_of_sexp (e : sexp) : nvalue =
     NStruct (bytes_of_hex n, List.map (function L [A f; v] -> (bytes_of_hex f, nvalue_of_sexp v) | _ -> failwith "bad field") fs)
   | L [A "var"; A e; A i; A vn; p] -> NVariant (bytes_of_hex e, n_of_hex i, bytes_of_hex vn, nvalue_of_sexp p)
   | _ -> failwith "bad nvalue"
+
+(* ---------- serde_json values (text form shared with harness/src/jsonv.rs) ---------- *)
+let rec json_of_sexp (e : sexp) : json =
+  match e with
+  | A "null" -> JNull
+  | L [A "b"; A "0"] -> JBool false
+  | L [A "b"; A "1"] -> JBool true
+  | L [A "n"; A z] -> JInt (z_of_hex z)
+  | L [A "f"; A h] -> JFloat (n_of_hex h)
+  | L [A "s"; A h] -> JStr (bytes_of_hex h)
+  | L (A "a" :: l) -> JArr (List.map json_of_sexp l)
+  | L (A "o" :: kvs) -> JObj (List.map (function L [A k; v] -> (bytes_of_hex k, json_of_sexp v) | _ -> failwith "bad member") kvs)
+  | _ -> failwith "bad json"
+let rec string_of_json (j : json) : string =
+  match j with
+  | JNull -> "null"
+  | JBool b -> if b then "(b 1)" else "(b 0)"
+  | JInt z -> "(n " ^ hex_of_z z ^ ")"
+  | JFloat b -> "(f " ^ hex_of_n b ^ ")"
+  | JStr s -> "(s " ^ hex_of_bytes s ^ ")"
+  | JArr l -> "(a" ^ String.concat "" (List.map (fun x -> " " ^ string_of_json x) l) ^ ")"
+  | JObj kvs -> "(o" ^ String.concat "" (List.map (fun (k, v) -> " (" ^ hex_of_bytes k ^ " " ^ string_of_json v ^ ")") kvs) ^ ")"
+
+(* the host's float conversions (trusted: OCaml / IEEE 754) *)
+let int64_of_n (x : n) : int64 = Int64.of_string ("0x" ^ hex_of_n x)
+let n_of_int64 (x : int64) : n = n_of_hex (Printf.sprintf "%Lx" x)
+let host_int_to_f64 (z : z) : n =
+  let h = hex_of_z z in
+  let f =
+    if String.length h > 0 && h.[0] = '-' then Int64.to_float (Int64.of_string ("-0x" ^ String.sub h 1 (String.length h - 1)))
+    else begin
+      let u = Int64.of_string ("0x" ^ h) in
+      if Int64.compare u 0L >= 0 then Int64.to_float u
+      else Int64.to_float (Int64.logor (Int64.shift_right_logical u 1) (Int64.logand u 1L)) *. 2.0
+    end
+  in
+  n_of_int64 (Int64.bits_of_float f)
+let host_narrow (b : n) : n = n_of_hex (Printf.sprintf "%lx" (Int32.bits_of_float (Int64.float_of_bits (int64_of_n b))))
+let host_widen (b : n) : n =
+  n_of_int64 (Int64.bits_of_float (Int32.float_of_bits (Int32.of_string ("0x" ^ hex_of_n b))))
+let string_of_dres (errs : 'e -> string) (f : 'a -> string) (r : ('e, 'a) dres) : string =
+  match r with
+  | DOk a -> "ok " ^ f a
+  | DErr e -> "err:" ^ errs e
+  | DPanic -> "panic"
+  | DUnbounded -> "unbounded"
+let string_of_dyn_ser_error = function
+  | DynSerSchemaMismatch -> "SchemaMismatch" | DynSerShouldSupportButDont -> "ShouldSupportButDont" | DynSerUnsupported -> "Unsupported"
+let string_of_dyn_de_error = function
+  | DynUnexpectedEndOfData -> "UnexpectedEndOfData" | DynShouldSupportButDont -> "ShouldSupportButDont" | DynSchemaMismatch -> "SchemaMismatch"
